@@ -261,6 +261,10 @@ static char *v_strtok(char *str, const char *sep)
   if (*p) { *p = 0; tok_next = p + 1; } else tok_next = 0;
   return start;
 }
+/* further <string.h> scanners a tokenizer may use (CBMC ships no bodies for them): C-standard semantics */
+static size_t v_strspn(const char *s, const char *set) { size_t n = 0; while (s[n] && strchr(set, s[n])) n++; return n; }
+static size_t v_strcspn(const char *s, const char *set) { size_t n = 0; while (s[n] && !strchr(set, s[n])) n++; return n; }
+static char *v_strpbrk(const char *s, const char *set) { while (*s) { if (strchr(set, *s)) return (char *)s; s++; } return 0; }
 static char *v_getenv(const char *name) { return !strcmp(name, "LBZIP2") ? env_val[0] : !strcmp(name, "BZIP2") ? env_val[1] : !strcmp(name, "BZIP") ? env_val[2] : 0; }
 void v_exit(int code) { exit_code = code; ended = true; if (H == 99) { WITNESS("options_refused"); PROP(code == 1, "refused options exit with status 1"); CUT(); } end_of_process(); CUT(); }
 
@@ -287,6 +291,9 @@ void v_exit(int code) { exit_code = code; ended = true; if (H == 99) { WITNESS("
 #define sysconf v_sysconf
 #define getenv v_getenv
 #define strtok v_strtok
+#define strspn v_strspn
+#define strcspn v_strcspn
+#define strpbrk v_strpbrk
 #ifdef OPTS_ONLY
 /* -n/-m are not in the option vocabulary of the C22 query: number parsing is never reached, keep it cheap for symex */
 static long v_strtol(const char *s, char **e, int b) { (void)b; *e = (char *)s; return 1; }
